@@ -3,6 +3,8 @@ import Pushr.Full
 import Driver.RandDrv
 import Pushr.Spec.C04
 import Pushr.Spec.C05
+import Pushr.Spec.C06
+import Pushr.Spec.C07
 /-! `exec` / `step` requests: one observed transition of the real interpreter state. -/
 open Pushr Codec
 
@@ -77,12 +79,43 @@ def c05Eval : PropEval := fun i pre post =>
     else some ("position-map statement prescribes " ++ encState want)
   | _, _ => none
 
-def propEvals : List (String × PropEval) := [("C01", panicFree), ("C04", c04Eval), ("C05", c05Eval)]
+/-- C06: the combinators of the table -/
+def c06Eval : PropEval := fun i pre post =>
+  match post, C06.ctrlSpec i pre with
+  | some post, some want =>
+    if encState post == encState want then none else some ("documented rearrangement " ++ encState want)
+  | _, _ => none
+
+/-- C07: DEFINE family, NAME.QUOTE -/
+def c07Eval : PropEval := fun i pre post =>
+  match i, post with
+  | .define t, some post =>
+    let want := C07.defineSpec t pre
+    if encState post == encState want then none else some ("definition must yield " ++ encState want)
+  | .name .quote, some post =>
+    let want := { pre with quote := true }
+    if encState post == encState want then none else some ("NAME.QUOTE must only set the flag")
+  | .code .definition, some post =>
+    let want := match pre.name with
+      | [] => pre
+      | n :: ns => match C07.table pre n with
+        | some v => { pre with name := ns, code := v :: pre.code }
+        | none => { pre with name := ns }
+    if encState post == encState want then none else some ("CODE.DEFINITION must yield " ++ encState want)
+  | _, _ => none
+
+def propEvals : List (String × PropEval) :=
+  [("C01", panicFree), ("C04", c04Eval), ("C05", c05Eval), ("C06", c06Eval), ("C07", c07Eval)]
 
 /-- instruction names in the scope of a property's single-instruction scenario -/
 def scopeOf (pid : String) : List Instr :=
   match pid with
   | "C04" => Instr.all.filter C04.inTable
+  | "C06" => [.exec .if_, .code .if_, .exec .k, .exec .s, .exec .y, .stk .exec .dup, .code .do_, .code .dostar,
+              .code .quote, .exec .loop, .code .loop, .vec .i .loop, .index .current, .index .define,
+              .index .destination, .index .flush, .index .increase, .index .pop]
+  | "C07" => [.define .bool, .define .int, .define .float, .define .code, .define .exec, .define .bvec,
+              .define .ivec, .define .fvec, .name .quote, .code .definition]
   | "C05" => Instr.all.filter fun i => match i with
     | .stk _ .id => false
     | .stk _ _ => true
@@ -145,7 +178,14 @@ def handleStep : List Sx → String
         let os := match obs with
           | some o => encBool done ++ " " ++ encState o
           | none => "PANIC"
-        let pf := evalProps .noop pre obs
+        let pf0 := evalProps .noop pre obs
+        let pf1 := match pre.exec, obs with
+          | .ident n :: e, some o =>
+            if encState o == encState (C07.identStep pre n e) then "" else " PROPFAIL C07 name step must yield " ++ encState (C07.identStep pre n e)
+          | .list xs :: e, some o =>
+            if encState o == encState { pre with exec := xs ++ e } then "" else " PROPFAIL C06 a list must be unpacked first element on top"
+          | _, _ => ""
+        let pf := pf0 ++ pf1
         let mm := if ms == os then "" else " MISMATCH model= " ++ ms
         if mm == "" && pf == "" then (if d then "ok T" else "ok N") else "no" ++ mm ++ pf
     | _, _, _, _ => "bad state"
